@@ -578,6 +578,11 @@ class Generator:
                 t = s[it.code_start:it.end]
                 if re.search(r'=\s*\w+(::<[^>]*>)?::\w+\s*\(', t):
                     t2 = re.sub(r'^(pub\s+)?const\b', lambda mm: (mm.group(1) or '') + 'exec const', t)
+                    # a const built by `Cmplx::new(lit, lit)` gets its value as a postcondition (Verus const syntax)
+                    cm = re.search(r'=\s*Cmplx::new\(\s*([-0-9.eE_]+)\s*,\s*([-0-9.eE_]+)\s*\)\s*;\s*$', t2)
+                    if cm:
+                        t2 = t2[:cm.start()] + ' ensures %s == cx(%sf64, %sf64) { Cmplx::new( %s, %s ) }' % (
+                            it.name, cm.group(1), cm.group(2), cm.group(1), cm.group(2))
                     self.rewrites.append(('R12', rel + '::' + it.name, 'const -> exec const'))
                     out.gen(it.attrs)
                     # R12 keeps the text on the same lines
